@@ -4,6 +4,7 @@
    PlaneSector::new (trigonometry) stays with the hook + validated hypothesis of C18.  Statements only. *)
 From EG Require Import Base.Prelude Base.Casts Model.Geometry Model.Thickline Model.Sectormodel.
 From EG Require Import Gen.SrcGeometry Gen.SrcSector Proofs.SrcSector.
+From EG Require Import Gen.SrcJoin Proofs.SrcHelpers.
 
 Theorem C18_src_operation_execute_is_model : forall o a b, src_Operation_execute o a b = sm_exec o a b.
 Proof. exact src_execute_eq. Qed.
@@ -15,6 +16,13 @@ Proof. exact src_ps_contains_eq. Qed.
 Theorem C18_src_plane_sector_point_type_is_model : forall s p i o,
   src_PlaneSector_point_type s p i o = ps_point_type (sector_of s) p i o.
 Proof. exact src_ps_point_type_eq. Qed.
+
+(* round 5: NORMAL_VECTOR_SCALE (linear_equation.rs:7) and OriginLinearEquation::new_horizontal *)
+Theorem C18_src_normal_vector_scale_is_model : src_NORMAL_VECTOR_SCALE = sm_normal_vector_scale.
+Proof. exact src_normal_vector_scale_eq. Qed.
+Theorem C18_src_new_horizontal_is_model :
+  OriginLinearEquation_normal_vector src_OriginLinearEquation_new_horizontal = P 0 sm_normal_vector_scale.
+Proof. exact src_new_horizontal_eq. Qed.
 
 Example C18_src_sector_nonvacuous :
   src_PlaneSector_contains (Build_PlaneSector (Build_OriginLinearEquation (P 0 1024)) (Build_OriginLinearEquation (P 1024 0)) OpIntersection) (P 3 (-2)) = true.
